@@ -8,9 +8,13 @@ import LemoModel.EvmValue
     frame := F <c|cc|d|s|n> <callee> <value> <o|r|f> <m> act*m
     act   := frame | K <beneficiary>
 
-  Addresses are labels (0 = no income address). The answer: which txs the model includes, the success flag of every frame
-  that was entered (execution order), whether the engine's gas report is consistent, and the final balance of the n
-  listed addresses — all computed by `LemoModel.EvmValue.applyBlock` from the listed INITIAL balances.
+  Addresses are labels (0 = no income address). `<o|r|f>` is how the frame's BODY ended by itself (from the steps traced at
+  the callee's depth; a frame that ran no code: `o`, except the fed facts precompile-failed / CREATE collision = `f`) —
+  it is never the success flag: a frame the engine refused (depth limit, CanTransfer, read-only mode) arrives as `o` with
+  an empty body and the model must refuse it by its own rules. The answer: which txs the model includes, the success flag
+  of every frame that was entered (execution order) AS COMPUTED BY THE MODEL (the harness prints the flags the callers
+  really saw on their stacks), whether the engine's gas report is consistent, and the final balance of the n listed
+  addresses — all computed by `LemoModel.EvmValue.applyBlock` from the listed INITIAL balances.
   Stateless: nothing is kept between lines.
 -/
 namespace Driver.EvmValue
